@@ -320,9 +320,15 @@ impl Cfg {
                 }
                 if let Some(reg) = it {
                     ranges.push(reg);
-                    break;
                 }
-                break;
+                // This is the first use on this path; the other paths are
+                // still searched, so that the result does not depend on the
+                // order in which they are visited.
+                continue;
+            }
+            // The value is overwritten before it is used on this path
+            if next.kill_reg().contains(&item) {
+                continue;
             }
 
             queue.extend(next.nexts().clone().into_iter());
